@@ -43,6 +43,7 @@ type trOut struct {
 		UseH3     bool   `json:"useH3"`
 		Plaintext bool   `json:"plaintext"`
 		Host      []any  `json:"host"`
+		Dport     int    `json:"dport"`
 	} `json:"o"`
 	Kept []int `json:"kept"`
 }
@@ -110,6 +111,11 @@ func (h *h3Stub) RoundTrip(req *http.Request) (*http.Response, error) {
 
 var wireOrderToggle atomic.Int64
 
+// zoneForm: how the zone tells the records' targets apart - 0: every record has its own port= parameter; 1: no port= and no
+// TargetName (the origin's own addresses, at the port the URL implies); 2: no port=, and all service records name ONE
+// TargetName (a CDN layout: "1 svc alpn=h3 no-default-alpn", "2 svc alpn=h2"), whose address is looked up separately
+var zoneForm atomic.Int64
+
 func replayTrCase(env *trEnv, c *trCase) (diff string) {
 	defer func() {
 		if p := recover(); p != nil {
@@ -117,6 +123,7 @@ func replayTrCase(env *trEnv, c *trCase) (diff string) {
 		}
 	}()
 	reverseWire := wireOrderToggle.Add(1)%2 == 0
+	form := int(zoneForm.Add(1) % 3)
 	// DoH zone: HTTPS records of each host at the host name and at every prefixed name of it; A records for every host
 	srv := newDoHServer(func(id int, name string, qtype int) ([]byte, int) {
 		base := name
@@ -149,11 +156,21 @@ func replayTrCase(env *trEnv, c *trCase) (diff string) {
 			}
 			for _, i := range order {
 				r := c.Recs[h][i]
-				ans = append(ans, rrHTTPS(name, 60, r.Prio, map[bool]string{true: "alias.example", false: ""}[r.Prio == 0], svcParams{ALPN: r.Alpn, NoDefault: r.Nodef, Port: 9001 + i}))
+				sp, tgt := svcParams{ALPN: r.Alpn, NoDefault: r.Nodef, Port: 9001 + i}, map[bool]string{true: "alias.example", false: ""}[r.Prio == 0]
+				if form != 0 {
+					sp.Port = 0
+				}
+				if form == 2 && r.Prio != 0 {
+					tgt = "svc.example"
+				}
+				ans = append(ans, rrHTTPS(name, 60, r.Prio, tgt, sp))
 			}
 		case tA:
 			if base == name {
 				ans = append(ans, rrA(name, 60, "127.0.0.1"))
+			}
+			if name == "svc.example" {
+				ans = []wRR{rrA(name, 60, "127.0.0.9")}
 			}
 		}
 		return wResponse(id, name, qtype, 0, ans), 200
@@ -256,6 +273,13 @@ func replayTrCase(env *trEnv, c *trCase) (diff string) {
 			keptPorts = append(keptPorts, fmt.Sprintf("127.0.0.1:%d", 9000+i))
 		}
 		sort.Strings(keptPorts)
+		if form != 0 {
+			// no port= parameters: one address for all kept records, at the port the URL implies
+			keptPorts = nil
+			if len(want.Kept) > 0 && want.O.Dport != 0 {
+				keptPorts = []string{fmt.Sprintf("%s:%d", map[int]string{1: "127.0.0.1", 2: "127.0.0.9"}[form], want.O.Dport)}
+			}
+		}
 		_ = recs
 		switch {
 		case want.O.Plaintext:
